@@ -346,6 +346,12 @@ def javaLocLoop : List Str → Outcome (List JavaInfo)
         | .ok is => .ok (javaClassify addr t :: is)
         | e => e
 
+/-- the lines `parseJavaLocations` reads with `ReadString('\n')`: the terminated ones and, if
+non-empty, the unterminated remainder (which the Go code deliberately still processes) -/
+def javaLocLines (b : Str) : List Str :=
+  let (ls, rem) := splitNL b
+  ls ++ (if rem.isEmpty then [] else [rem])
+
 def parseJavaProfile (scale : ScaleFn) (b : Str) : Outcome Profile :=
   let (ls, rem) := splitNL b
   match ls with
